@@ -140,6 +140,14 @@ func (set *SortedSet) GetAll() []MemberParam {
 	return res
 }
 
+// CompareMembers orders members by score, and members with equal scores by the bytes of the member.
+func CompareMembers(a, b MemberParam) int {
+	if c := cmp.Compare(a.Score, b.Score); c != 0 {
+		return c
+	}
+	return strings.Compare(string(a.Value), string(b.Value))
+}
+
 func (set *SortedSet) Cardinality() int {
 	return len(set.GetAll())
 }
@@ -264,9 +272,9 @@ func (set *SortedSet) Pop(count int, policy string) (*SortedSet, error) {
 
 	slices.SortFunc(members, func(a, b MemberParam) int {
 		if strings.EqualFold(policy, "min") {
-			return cmp.Compare(a.Score, b.Score)
+			return CompareMembers(a, b)
 		}
-		return cmp.Compare(b.Score, a.Score)
+		return CompareMembers(b, a)
 	})
 
 	for i := 0; i < count; i++ {
